@@ -331,7 +331,9 @@ func c13Gen(r *kit.Rng, id string) *req.Session {
 					rq.Path = rq.Path + "=" + r.Pick([]string{"k0", "1", "a,b", ",", "%", "%zz", "a,b,c,d"})
 					rq.Damage = "key-on-anything"
 				default:
-					rq.Path = r.Pick([]string{"../", "../../x", "/", "//", name() + "/" + name() + "/" + name(), "m:" + name(), ":" + name(), name() + ":", "=", "?", "a=b=c", strings.Repeat("../", 5)})
+					// relative paths are given to a selection somewhere inside the tree
+					rq.From = at.String()
+					rq.Path = r.Pick([]string{"../", "../../x", "../y?", "../../x?a", "../../../l?depth=1", "../?", "../" + name() + "?depth=1", "../../" + name() + "?x", "..?", "../..", "/", "//", name() + "/" + name() + "/" + name(), "m:" + name(), ":" + name(), name() + ":", "=", "?", "a=b=c", strings.Repeat("../", 5)})
 					rq.Damage = "odd-path"
 				}
 			}
